@@ -8,8 +8,179 @@ class Unsupported(Exception):
     pass
 
 
+PINNED = os.path.join(os.path.dirname(os.path.abspath(__file__)), "pinned")
+
+
 def parse(rel):
-    return ast.parse(open(os.path.join(SRC, rel)).read())
+    """the current source of src/pygom/<rel>.  Functions that differ from the pinned copy (gen/pinned/<rel>, the source the
+    translators were written against) only by the names of their local variables and by docstrings are handed to the
+    translators under the pinned local names (alpha-normalisation); any other difference is left exactly as it is."""
+    tree = ast.parse(open(os.path.join(SRC, rel)).read())
+    pin = os.path.join(PINNED, rel)
+    if os.path.exists(pin) and not os.environ.get("PYGOM_NO_ALPHA"):
+        try:
+            alpha_normalise(tree, ast.parse(open(pin).read()))
+        except RecursionError:
+            pass
+    return tree
+
+
+# ---------------------------------------------------------------------------------------------------- alpha-normalisation
+def _functions(tree):
+    out = {}
+    def add(prefix, body):
+        for n in body:
+            if isinstance(n, (ast.FunctionDef, ast.AsyncFunctionDef)):
+                out.setdefault((prefix, n.name, tuple(ast.unparse(d) for d in n.decorator_list)), n)
+            elif isinstance(n, ast.ClassDef):
+                add(prefix + n.name + ".", n.body)
+    add("", tree.body)
+    return out
+
+
+def _params(f):
+    a = f.args
+    out = [x.arg for x in a.posonlyargs + a.args + a.kwonlyargs]
+    if a.vararg: out.append(a.vararg.arg)
+    if a.kwarg: out.append(a.kwarg.arg)
+    return set(out)
+
+
+def _locals(f):
+    """names bound in the scope of f itself or in comprehensions inside it (nested functions / lambdas are scopes of their own)"""
+    names, excl = set(), set()
+    todo = list(ast.iter_child_nodes(f))
+    while todo:
+        n = todo.pop()
+        if isinstance(n, (ast.FunctionDef, ast.AsyncFunctionDef)):
+            excl.add(n.name)
+            continue
+        if isinstance(n, (ast.Lambda, ast.ClassDef)):
+            continue
+        if isinstance(n, ast.Name) and isinstance(n.ctx, (ast.Store, ast.Del)):
+            names.add(n.id)
+        elif isinstance(n, ast.ExceptHandler) and n.name:
+            names.add(n.name)
+        elif isinstance(n, (ast.Global, ast.Nonlocal)):
+            excl.update(n.names)
+        elif isinstance(n, (ast.Import, ast.ImportFrom)):
+            excl.update((a.asname or a.name).split(".")[0] for a in n.names)
+        todo.extend(ast.iter_child_nodes(n))
+    return names - excl - _params(f)
+
+
+def _is_doc(st):
+    return isinstance(st, ast.Expr) and isinstance(st.value, ast.Constant) and isinstance(st.value.value, str)
+
+
+def _arglist(f):
+    a = f.args
+    return a.posonlyargs + a.args + a.kwonlyargs + ([a.vararg] if a.vararg else []) + ([a.kwarg] if a.kwarg else [])
+
+
+class _Alpha:
+    """structural equality of a (current) and b (pinned) up to a bijective renaming of local names, scope by scope"""
+
+    def __init__(self, la, lb):
+        self.la, self.lb = set(la), set(lb)
+        self.m, self.inv, self.patches = {}, {}, []
+
+    def name(self, node, attr, x, y):
+        if (x in self.la) != (y in self.lb):
+            return False
+        if x not in self.la:
+            return x == y
+        if self.m.setdefault(x, y) != y or self.inv.setdefault(y, x) != x:
+            return False
+        if x != y:
+            self.patches.append((node, attr, y))
+        return True
+
+    def eq(self, a, b):
+        if a is None or b is None:
+            return a is None and b is None
+        if type(a) is not type(b):
+            return False
+        if isinstance(a, ast.Name):
+            return self.name(a, "id", a.id, b.id)
+        if isinstance(a, (ast.Lambda, ast.FunctionDef, ast.AsyncFunctionDef)):
+            return self.scope(a, b)
+        if isinstance(a, ast.ExceptHandler):
+            if (a.name is None) != (b.name is None) or (a.name is not None and not self.name(a, "name", a.name, b.name)):
+                return False
+        return self.fields(a, b)
+
+    def fields(self, a, b, skip=()):
+        for (fa, va), (fb, vb) in zip(ast.iter_fields(a), ast.iter_fields(b)):
+            if fa in skip or (isinstance(a, ast.ExceptHandler) and fa == "name"):
+                continue
+            if fa in ("lineno", "col_offset", "end_lineno", "end_col_offset", "type_comment", "kind"):
+                continue
+            if isinstance(va, list):
+                if not isinstance(vb, list):
+                    return False
+                if fa == "body":
+                    va = [s for s in va if not _is_doc(s)]
+                    vb = [s for s in vb if not _is_doc(s)]
+                if len(va) != len(vb):
+                    return False
+                for x, y in zip(va, vb):
+                    if isinstance(x, ast.AST):
+                        if not self.eq(x, y):
+                            return False
+                    elif x != y:
+                        return False
+            elif isinstance(va, ast.AST) or isinstance(vb, ast.AST):
+                if not self.eq(va, vb):
+                    return False
+            elif va != vb:
+                return False
+        return True
+
+    def scope(self, a, b):
+        """a nested function / lambda: its parameters and its own locals are renamable inside it only"""
+        pa, pb = _arglist(a), _arglist(b)
+        if len(pa) != len(pb):
+            return False
+        if not isinstance(a, ast.Lambda) and a.name != b.name:
+            return False
+        # defaults / decorators / annotations live in the enclosing scope
+        for x, y in zip(a.args.defaults + a.args.kw_defaults, b.args.defaults + b.args.kw_defaults):
+            if not self.eq(x, y):
+                return False
+        na = {x.arg for x in pa} | (set() if isinstance(a, ast.Lambda) else _locals(a))
+        nb = {x.arg for x in pb} | (set() if isinstance(b, ast.Lambda) else _locals(b))
+        saved = (self.la, self.lb, self.m, self.inv)
+        self.la, self.lb = self.la | na, self.lb | nb
+        self.m = {k: v for k, v in self.m.items() if k not in na}
+        self.inv = {k: v for k, v in self.inv.items() if k not in nb}
+        ok = all(self.name(x, "arg", x.arg, y.arg) for x, y in zip(pa, pb))
+        if ok:
+            if isinstance(a, ast.Lambda):
+                ok = self.eq(a.body, b.body)
+            else:
+                ok = self.fields(a, b, skip=("args", "name", "decorator_list", "returns"))
+        inner_m, inner_inv = self.m, self.inv
+        self.la, self.lb, self.m, self.inv = saved
+        if ok:      # what the inner scope learnt about OUTER names must agree with the outer mapping
+            for k, v in inner_m.items():
+                if k not in na and (self.m.setdefault(k, v) != v or self.inv.setdefault(v, k) != k):
+                    return False
+        return ok
+
+
+def alpha_normalise(tree, pinned):
+    cur, pin = _functions(tree), _functions(pinned)
+    for key, f in cur.items():
+        g = pin.get(key)
+        if g is None or ast.dump(f.args) != ast.dump(g.args):
+            continue        # parameters keep their names: the argument lists are compared literally
+        al = _Alpha(_locals(f), _locals(g))
+        fb = [s for s in f.body if not _is_doc(s)]
+        gb = [s for s in g.body if not _is_doc(s)]
+        if len(fb) == len(gb) and all(al.eq(x, y) for x, y in zip(fb, gb)):
+            for node, attr, val in al.patches:
+                setattr(node, attr, val)
 
 
 def find_class(tree, cls):
